@@ -9,6 +9,7 @@
 #include <exception>
 #include <fstream>
 #include <iostream>
+#include <atomic>
 #include <thread>
 #include <vector>
 #include <unistd.h>
@@ -55,7 +56,28 @@ static std::string runCase(const std::string &line) {
 // each from a different starting point (-> <outprefix>.t<k>).  After the join
 // the use_count of every shared grid block is compared with the number of
 // cached objects that refer to it (-> <outprefix>.quiescent).
-static int threadedMain(int nthreads, const char *casesPath, const std::string &prefix) {
+// sense-reversing spin barrier (no C++20 here)
+struct SpinBarrier {
+  explicit SpinBarrier(int n) : n_(n) {}
+  void wait() {
+    const int gen = gen_.load(std::memory_order_acquire);
+    if (count_.fetch_add(1, std::memory_order_acq_rel) + 1 == n_) {
+      count_.store(0, std::memory_order_relaxed);
+      gen_.store(gen + 1, std::memory_order_release);
+    } else {
+      while (gen_.load(std::memory_order_acquire) == gen) std::this_thread::yield();
+    }
+  }
+  const int n_;
+  std::atomic<int> count_{0}, gen_{0};
+};
+
+// lockstep = true: all threads work in phases separated by a barrier; in phase i
+// thread t runs case (i + t) mod n, i.e. NEIGHBOURING cases (in the specification's
+// enumeration order these mostly share the operation and template instantiation
+// and differ in the data) are executed at the very same time.  lockstep = false:
+// every thread sweeps all cases on its own, starting at a different offset.
+static int threadedMain(int nthreads, const char *casesPath, const std::string &prefix, bool lockstep) {
   std::ifstream in(casesPath);
   if (!in) return 2;
   std::vector<std::string> cases;
@@ -80,13 +102,15 @@ static int threadedMain(int nthreads, const char *casesPath, const std::string &
   for (auto &audit : opCache().gridAudits) baseline.push_back(audit().first);
   std::vector<std::vector<std::string>> outs(nthreads, std::vector<std::string>(cases.size()));
   std::vector<std::thread> ths;
+  SpinBarrier barrier(nthreads);
   for (int t = 0; t < nthreads; t++) {
     ths.emplace_back([&, t] {
-      const size_t n = cases.size(), start = n * t / nthreads;
+      const size_t n = cases.size(), start = lockstep ? static_cast<size_t>(t) % n : n * t / nthreads;
       for (size_t k = 0; k < n; k++) {
         const size_t i = (start + k) % n;
+        if (lockstep) barrier.wait();
         outs[t][i] = runCase(cases[i]);
-        if ((k & 7) == static_cast<size_t>(t & 7)) std::this_thread::yield();
+        if (!lockstep && (k & 7) == static_cast<size_t>(t & 7)) std::this_thread::yield();
       }
     });
   }
@@ -104,7 +128,7 @@ static int threadedMain(int nthreads, const char *casesPath, const std::string &
 int main(int argc, char **argv) {
   if (argc >= 5 && std::string(argv[1]) == "--threads") {
     std::set_terminate(onTerminate);
-    return threadedMain(std::atoi(argv[2]), argv[3], argv[4]);
+    return threadedMain(std::atoi(argv[2]), argv[3], argv[4], argc >= 6 && std::string(argv[5]) == "lockstep");
   }
   if (argc < 3) {
     std::fprintf(stderr, "usage: vh cases.ndjson trace.ndjson [skip]\n");
